@@ -125,8 +125,17 @@ def replay_rel(case) -> dict:
         g = float(model.score((sub * 3.5).astype(np.float32), quat, ZERO))
         if not abs(g - sc) < 2e-3:
             fails.append(dict(desc, clause="GainInvariant", observed=g, expected=sc))
+        # weak and strong data (exact powers of two): the score and, below, every other route to it stay where they are
+        gain = (1.0, 2.0**-16, 2.0**10)[(case["seed"] // 4) % 3]
+        if gain != 1.0:
+            sub = (np.asarray(sub) * gain).astype(sub.dtype)
+            g2 = float(model.score(sub, quat, ZERO))
+            desc["gain"] = gain
+            if not abs(g2 - sc) < 2e-3:
+                fails.append(dict(desc, clause="GainInvariant", observed=g2, expected=sc))
     if case["model"] == "ZNCC" and mask is None:
-        o = float(model.score((sub + 2.0).astype(np.float32), quat, ZERO))
+        # (the constant is of the size of the data: float32 cannot hold a signal of 1e-5 on top of 2)
+        o = float(model.score((sub + np.float32(2.0 * desc.get("gain", 1.0))).astype(np.float32), quat, ZERO))
         if not abs(o - sc) < 2e-3:
             fails.append(dict(desc, clause="OffsetInvariant", observed=o, expected=sc))
     if case["model"] in ("ZNCC", "FSC"):
@@ -165,6 +174,19 @@ def replay_loader(case) -> dict:
     got = engine.api(loader.score, [tmpl], alignment_model=M)[0]
     if not np.allclose(got, want, atol=2e-3):
         fails.append(dict(desc, clause="LoaderScoreAgrees", observed=[float(x) for x in got], expected=want))
+    # several templates and a mask given as a converter (computed FROM each template): template j is scored under ITS mask
+    from acryo import pipe
+
+    tmpl2 = _blob(shape, (np.array(shape) - 1) / 2 + np.array([0.0, 1.5, -1.0]), np.random.default_rng(case["seed"] + 1), )
+    tmpl2 = (tmpl2 + np.roll(tmpl, 2, axis=0) * 0.5).astype(np.float32)
+    conv = pipe.soft_otsu(sigma=1.0, radius=1.0)
+    got2 = engine.api(loader.score, [tmpl, tmpl2], mask=conv, alignment_model=M)
+    for jt, t in enumerate((tmpl, tmpl2)):
+        mj = np.asarray(conv(t, float(loader.scale)), dtype=np.float32)
+        mdl = M(t, mj)
+        wantj = [float(mdl.score(s, IDQ, pos[i])) for i, s in enumerate(subs)]
+        if not np.allclose(got2[jt], wantj, atol=2e-3):
+            fails.append(dict(desc, clause="LoaderScoreUsesEachTemplatesOwnMask", template=jt, observed=[float(x) for x in got2[jt]], expected=wantj))
     lds = engine.api(loader.construct_landscape, tmpl, max_shifts=1.0, alignment_model=M).compute()
     for i, s in enumerate(subs):
         ref = np.asarray(model.landscape(s, (1.0, 1.0, 1.0), IDQ, pos[i]))
